@@ -18,7 +18,10 @@ Import ListNotations.
    hold, i.e. on that input the model's output is PROVED to meet the statement *)
 Inductive case :=
 | CTri (use_model need_spec need_cover gp : bool) (pts : list (Z * Z)) (tris : list (nat * nat * nat))
-       (pos : list (Z * Z * Z)) (sup : list (Z * Z)) (attr_lens : list nat) (caller_after : list (Z * Z)).
+       (pos : list (Z * Z * Z)) (sup : list (Z * Z)) (attr_lens : list nat) (caller_after : list (Z * Z))
+(* the exported predicates on their own: Triangle{0,1,2}.InsideCircumcircle(p, [a,b,c]),
+   Triangle{0,1,2}.CounterClockwise([a,b,c]) and Triangle(t).Edges() as the implementation answered *)
+| CPred (a b c p : Z * Z) (inside ccw : bool) (t : nat * nat * nat) (es : list (nat * nat)).
 
 Definition qpts (pts : list (Z * Z)) : list pt := map (fun p => (inject_Z (fst p), inject_Z (snd p))) pts.
 Definition tri_inb (t : tri) (l : list tri) : bool := existsb (tri_eqb t) l.
@@ -48,8 +51,29 @@ Definition same_trisb (ts tris : list tri) : bool :=
 
 (* the statement asks for ONE winding for all triangles, not for a particular one: the implementation's set
    may be the model's (clockwise) set or its mirror image as a whole *)
+Definition qpt (p : Z * Z) : pt := (inject_Z (fst p), inject_Z (snd p)).
+Fixpoint edges_eqb (l m : list (nat * nat)) : bool :=
+  match l, m with
+  | [], [] => true
+  | e :: l', f :: m' => edge_eqb e f && edges_eqb l' m'
+  | _, _ => false
+  end.
+(* the centre of the circle through a, b, c (orient a b c <> 0), by the perpendicular-bisector equations —
+   independent of the in-circle determinant *)
+Definition centre (a b c : pt) : pt :=
+  let o := orient a b c in
+  let A := fst a * fst a + snd a * snd a in
+  let B := fst b * fst b + snd b * snd b in
+  let C := fst c * fst c + snd c * snd c in
+  ((A * (snd b - snd c) + B * (snd c - snd a) + C * (snd a - snd b)) / (2 * o),
+   (A * (fst c - fst b) + B * (fst a - fst c) + C * (fst b - fst a)) / (2 * o)).
+
 Definition corr_ok (c : case) : bool :=
   match c with
+  | CPred a b c p inside ccw t es =>
+      let P := [qpt a; qpt b; qpt c] in
+      Bool.eqb inside (in_circb P (0, 1, 2)%nat (qpt p)) && Bool.eqb ccw (ccwb P (0, 1, 2)%nat) &&
+      edges_eqb (edges t) es
   | CTri m _ _ gp pts tris _ sup _ _ =>
       if m then
         match bw (qpts pts) with
@@ -84,6 +108,13 @@ Fixpoint same_ptsb (pts after : list (Z * Z)) : bool :=
    the triangle areas add up to the area of the convex hull (exact in Q) *)
 Definition prop_ok (c : case) : bool :=
   match c with
+  | CPred a b c p inside ccw _ _ =>
+      (* what the algorithm relies on: for a clockwise triangle the answer is "strictly inside the circle",
+         judged by distances to the centre; the winding test is the sign of twice the signed area *)
+      let '(a, b, c, p) := (qpt a, qpt b, qpt c, qpt p) in
+      Bool.eqb ccw (Qltb 0 (cross a b + cross b c + cross c a)) &&
+      (if Qltb (orient a b c) 0
+       then Bool.eqb inside (Qltb (dist2 p (centre a b c)) (dist2 a (centre a b c))) else true)
   | CTri _ spec cover _ pts tris pos _ alens after =>
       let q := qpts pts in
       (if spec then pos_okb pts pos && forallb (Nat.eqb (length pts)) alens && same_ptsb pts after &&
